@@ -43,6 +43,10 @@ static std::vector<c08::Cell> cells(bool T) {
   for (int k : {20, 200}) v.push_back(c08::Cell{k, 100000, 1, 2, tr});       // mixed k: error published for the smallest k
   v.push_back(c08::Cell{20, 10000, 3, 0, tr});
   v.push_back(c08::Cell{200, 10000, 3, 1, tr});
+  // very large k (upper half of the legal range up to MAX_K = 65535): 4 sketches merged; the published error is the one of the nominal k
+  for (int k : {32768, 33000}) v.push_back(c08::Cell{k, 400000, 1, 1, T ? 40 : 6});
+  for (int k : {40000, 65535}) v.push_back(c08::Cell{k, 800000, 1, 1, T ? 30 : 5});
+  if (T) { v.push_back(c08::Cell{33000, 1000000, 1, 0, 20}); v.push_back(c08::Cell{50000, 1000000, 2, 1, 20}); }
   if (T) { v.push_back(c08::Cell{8, 100000, 1, 0, tr}); v.push_back(c08::Cell{64, 100000, 2, 1, tr}); v.push_back(c08::Cell{1000, 100000, 1, 1, 1000}); }
   return v;
 }
